@@ -112,8 +112,10 @@ func padding(t *rapid.T, label, old string) string {
 // call sites in a field initializer, an initializer block, the method's own body and a user method,
 // one to three statements per line, in many forms (see stmt); methods whose names resemble the
 // subject's, declared and called next to it; a second top-level class in the file that calls the
-// method on a parameter; the whole unit on one line.
-func genSynth(t *rapid.T, p *jgen.Project) (class, old string) {
+// method on a parameter; the whole unit on one line. others lists further methods of the class that a
+// config may rename as well (those named like the subject, and the user method): their calls are
+// entered in the truth like the subject's.
+func genSynth(t *rapid.T, p *jgen.Project) (class, old string, others []string) {
 	taken := identifiersOf(p)
 	fresh := func(name string) string {
 		for taken[name] || isKeyword(name) {
@@ -210,6 +212,13 @@ func genSynth(t *rapid.T, p *jgen.Project) (class, old string) {
 		}
 		w.S(old)
 	}
+	// siteOf writes a call of another method of the class (implicit receiver)
+	siteOf := func(name string) {
+		if cur != nil {
+			cur.Events = append(cur.Events, jgen.Event{Kind: "call", Name: name, Line: w.Line(), Col: w.Col(), Recv: "implicit", Target: full + "." + name, Resolve: true, ExpPkg: pkg, ExpNode: cls})
+		}
+		w.S(name)
+	}
 	staticMod := ""
 	if static {
 		staticMod = "static "
@@ -278,7 +287,8 @@ func genSynth(t *rapid.T, p *jgen.Project) (class, old string) {
 				stmt(0)
 				return
 			}
-			w.S(rapid.SampledFrom(variants).Draw(t, "synthVariantCall") + "(1);")
+			siteOf(rapid.SampledFrom(variants).Draw(t, "synthVariantCall"))
+			w.S("(1);")
 		case 8: // a long comment left of the site
 			w.S("/* " + padding(t, "synthPad", old) + " */ ")
 			feature("long_comment_left_of_site")
@@ -362,6 +372,7 @@ func genSynth(t *rapid.T, p *jgen.Project) (class, old string) {
 	}
 	use := func() {
 		ft := jgen.FuncTruth{Name: fresh("zuse"), ReturnType: "void", DeclLine: w.Line(), NameLine: w.Line()}
+		others = append(others, ft.Name)
 		w.S(ind + "void ")
 		ft.NameCol = w.Col()
 		w.S(ft.Name + "() {\n")
@@ -419,7 +430,9 @@ func genSynth(t *rapid.T, p *jgen.Project) (class, old string) {
 		// the variant's body calls the subject and itself on one line
 		cur = &ft
 		site("implicit", true)
-		w.S("(" + v + "(a)); }")
+		w.S("(")
+		siteOf(v)
+		w.S("(a)); }")
 		ft.EndLine = w.Line()
 		w.S("\n")
 		truth.Funcs = append(truth.Funcs, ft)
@@ -534,15 +547,15 @@ func genSynth(t *rapid.T, p *jgen.Project) (class, old string) {
 		p.Files = append(p.Files, jgen.File{Path: ct.Path, Text: cw.String()})
 		p.Units = append(p.Units, ct)
 	}
-	return full, old
+	return full, old, append(append([]string(nil), variants...), others...)
 }
 
 // addLookalike appends a class whose name resembles the subject's class and which declares and calls a
 // method of the subject's name: the same simple name in another package (only when every other file
 // that calls the subject names its class through a single-type import: the model resolves a plain
 // name without such an import by its simple name alone), or the subject's class name extended, in
-// the subject's package.
-func addLookalike(t *rapid.T, c *Case) {
+// the subject's package. It returns the full name of the class it added, "" when it added none.
+func addLookalike(t *rapid.T, c *Case) (class string) {
 	kind := rapid.IntRange(0, 2).Draw(t, "lookalikeKind")
 	pkg, cls := splitClass(c.Class)
 	target := c.Class + "." + c.Old
@@ -563,7 +576,7 @@ func addLookalike(t *rapid.T, c *Case) {
 				}
 			}
 			if refers && (pkg == "" || !strings.Contains(c.Project.Files[i].Text, "import "+c.Class+";")) {
-				return
+				return ""
 			}
 		}
 		if pkg == "" {
@@ -573,14 +586,14 @@ func addLookalike(t *rapid.T, c *Case) {
 		}
 		for _, u := range c.Project.Units {
 			if u.Pkg == npkg {
-				return
+				return ""
 			}
 		}
 		label = "synth:same_simple_class_name_in_another_package"
 	default: // the class name extended, same package
 		ncls = cls + rapid.SampledFrom([]string{"X", "2", "_", "Impl"}).Draw(t, "lookalikeSuffix")
 		if taken[ncls] {
-			return
+			return ""
 		}
 		label = "synth:class_name_extending_the_subject's_class_name"
 	}
@@ -605,6 +618,7 @@ func addLookalike(t *rapid.T, c *Case) {
 	u.Funcs = []jgen.FuncTruth{ft}
 	c.Project.Files = append(append([]jgen.File(nil), c.Project.Files...), jgen.File{Path: u.Path, Text: w.String()})
 	c.Project.Units = append(append([]jgen.UnitTruth(nil), c.Project.Units...), u)
+	return nfull
 }
 
 // newNameLike derives the new name from the old one: an extension, a prefix, a suffix, a case variant.
@@ -618,9 +632,19 @@ func newNameLike(t *rapid.T, old string) string {
 	return rapid.SampledFrom(cands).Draw(t, "newLikeOld")
 }
 
-// confText lays out the request in the config file.
+// confText lays out the requests in the config file: one per line, in the order of Case.requests,
+// optionally a blank line between two of them; with or without final line end, among blank lines.
 func confText(c Case) string {
-	line := c.Class + "." + c.Old + " -> " + c.Class + "." + c.New
+	reqs, _ := c.requests()
+	var lines []string
+	for _, r := range reqs {
+		lines = append(lines, r.Class+"."+r.Old+" -> "+r.Class+"."+r.New)
+	}
+	sep := "\n"
+	if c.Sep == 1 {
+		sep = "\n\n"
+	}
+	line := strings.Join(lines, sep)
 	switch c.Conf {
 	case 1:
 		return line // no final newline
